@@ -436,6 +436,11 @@ def naive_aggregator_orientation(ctx, F, r):
         want_seq = ["iter_mut", "rev", "as_slice", "chunks_exact", "zip", "into_iter", "next", "iter", "rev", "fold"]
         sig = [x for x in names if x in set(want_seq)]
         ok = sig == want_seq
+        loop_form = False
+        if not ok and sig == ["iter_mut", "rev", "as_slice", "chunks_exact", "zip", "into_iter", "next", "iter", "rev", "into_iter", "next"]:
+            # the fold written as an explicit inner loop over sub.iter().rev(): x = (x << 2) | get_quartile(b, q1, q2, q3), x0 = 0
+            loop_form = _explicit_fold_loop(F, b)
+            ok = loop_form
         # chunk size 4
         chunk = None
         for _, t in b.calls():
@@ -470,10 +475,60 @@ def naive_aggregator_orientation(ctx, F, r):
                     mm = find_all(x, lambda y: y[0] == "field" and y[1] in (("deref", P(1)), P(1)))
                     caps.append(mm[0][2] if mm else None)
                 okc = caps == [0, 1, 2]
+        if loop_form:
+            okc = True  # the accumulation step was checked on the loop itself
         ctx.ob(r, ("naive::" + nm, "fold-closure"), okc,
                "fold closure computes %s; reference (x << 2) | get_quartile(b, q1, q2, q3)" % (sym.fmt(got) if got else None), cfg=F.key, where=b.where())
     if seen < 3:
         ctx.missing(r, "three naive aggregators (found %d)" % seen, cfg=F.key)
+
+
+def _explicit_fold_loop(F, b):
+    S = sym.Sym(b)
+    paths = S.paths()
+    hdrs = {p.blocks[-1] for p in paths if p.end == "loop"}
+    # also headers of nested loops: walk from each known header
+    more = set()
+    for h in list(hdrs):
+        for p in S.paths(entry=h):
+            if p.end == "loop":
+                more.add(p.blocks[-1])
+    hdrs |= more
+    GQ = "generate::bucket_aggregation::naive::get_quartile"
+    for h in hdrs:
+        for p in S.paths(entry=h):
+            if p.end != "loop" or p.blocks[-1] != h:
+                continue
+            gq = [c for c in p.calls if c[1] == GQ]
+            if len(gq) != 1:
+                continue
+            call = n(("call", gq[0][0], gq[0][1], gq[0][2]))
+            args = call[2]
+            nxt = [n(("call", c[0], c[1], c[2])) for c in p.calls if c[1].endswith("::next")]
+            if not nxt:
+                continue
+            item = ("field", ("variant", nxt[-1], "Some"), 0)
+            okargs = len(args) == 4 and args[0] in (("load", ("deref", item)), item) and list(args[1:]) == [P(3), P(4), P(5)]
+            step_ok = False
+            acc = None
+            for l, v in (p.env["locals"].items() if p.env else ()):
+                nv = n(v)
+                m = match(("bin", "BitOr", V("a"), V("b")), nv)
+                if m and call in (m["a"], m["b"]):
+                    other = m["b"] if m["a"] == call else m["a"]
+                    if other == ("bin", "Shl", ("local", l), C(2)):
+                        step_ok = True
+                        acc = l
+            if not (okargs and step_ok):
+                continue
+            # the accumulator starts at 0 when the inner loop is entered ...
+            pre = [q for q in S.paths(stop_at={h}) if q.end == "stop"]
+            init_ok = bool(pre) and all(n(q.env["locals"].get(acc, ("local", acc))) == C(0) for q in pre)
+            # ... and is what gets stored into the output byte when the inner loop ends
+            exits = [q for q in S.paths(entry=h) if q.blocks[-1] != h or q.end == "return"]
+            store_ok = any(any(n(v) == ("local", acc) and n(pl)[0] == "deref" for (_, pl, v) in q.stores) for q in exits)
+            return init_ok and store_ok
+    return False
 
 
 def engine_name(callee):
